@@ -112,9 +112,21 @@ def gen_float(rng, n):
     return out
 
 
-def case_call(num_lo, num, den_lo, den, build="dict", kw=False):
-    return {"entry": "call", "num_lo": num_lo, "num": encl(num), "den_lo": den_lo, "den": encl(den),
-            "build": build, "kw": kw}
+def case_call(num_lo, num, den_lo, den, build="dict", kw=False, spell="fraction"):
+    c = {"entry": "call", "num_lo": num_lo, "num": encl(num), "den_lo": den_lo, "den": encl(den),
+         "build": build, "kw": kw}
+    if spell != "fraction":
+        c["spell"] = spell
+    return c
+
+
+def _spell(xs, how):
+    """numeric spelling of integer-valued coefficients: Fraction (default), plain int, bool where 0 / 1"""
+    if how == "int" and all(x.denominator == 1 for x in xs):
+        return [int(x) for x in xs]
+    if how == "bool" and all(x.denominator == 1 for x in xs):
+        return [bool(x) if x in (0, 1) else int(x) for x in xs]
+    return list(xs)
 
 
 def _rq(rng, zero=0.15):
@@ -154,7 +166,12 @@ def gen_call(rng, n):
         build = rng.choice(["dict", "dict", "zexpr", "list"])
         if build == "list" and (num_lo != 0 or den_lo != 0):
             build = "dict"
-        out.append(case_call(num_lo, num, den_lo, den, build, rng.random() < .3))
+        spell = "fraction"
+        if rng.random() < .25:
+            spell = rng.choice(["int", "bool"])
+            num = [F(rng.choice([1, 1, 0, 2, -1, 3])) for _ in num]
+            den = [F(round(x)) for x in den]
+        out.append(case_call(num_lo, num, den_lo, den, build, rng.random() < .3, spell))
     return out
 
 
@@ -202,7 +219,7 @@ def impl(c):
             o["stable"] = {"err": err_kind(ex)}
         return o
     if e == "call":
-        num, den = decl(c["num"]), decl(c["den"])
+        num, den = _spell(decl(c["num"]), c.get("spell")), _spell(decl(c["den"]), c.get("spell"))
         nl, dl = c["num_lo"], c["den_lo"]
         build = c.get("build", "dict")
         try:
@@ -234,7 +251,7 @@ def impl(c):
 def request(c):
     if c["entry"] == "fparcor":
         return {"entry": "fparcor", "bits": [bits(x) for x in c["num"]]}
-    return {k: v for k, v in c.items() if k not in ("build", "kw")}
+    return {k: v for k, v in c.items() if k not in ("build", "kw", "spell")}
 
 
 # ----------------------------------------------------------------------------------------------
@@ -363,6 +380,7 @@ def tally(eng, c, io):
             eng.count("float_stable", io.get("stable"))
     else:
         eng.count("call_build", c.get("build", "dict") + ("+kw" if c.get("kw") else ""))
+        eng.count("call_spelling", c.get("spell", "fraction"))
         eng.count("call_shift", "num_lo=%s den_lo=%s" % (("0" if c["num_lo"] == 0 else "<0" if c["num_lo"] < 0 else ">0"),
                                                         ("0" if c["den_lo"] == 0 else "<0" if c["den_lo"] < 0 else ">0")))
         if "construct_err" in io:
@@ -390,6 +408,8 @@ def shrink(c):
                     yield case_f(num[:i] + [y] + num[i + 1:], c.get("how", "?"))
     elif e == "call":
         num, den = decl(c["num"]), decl(c["den"])
+        if c.get("spell"):
+            yield case_call(c["num_lo"], num, c["den_lo"], den, c.get("build", "dict"), c.get("kw"))
         if c.get("kw"):
             yield case_call(c["num_lo"], num, c["den_lo"], den, c.get("build", "dict"), False)
         if c.get("build") != "dict":
